@@ -323,6 +323,34 @@ func runMsgs(seed int64, histories, steps int, out *Emitter) {
 				out.Count("query.oracle."+kind, resp != "err")
 			}
 		}
+		// (b') the network restarts from its own exported genesis: the feeds and the deposit parameter must come back
+		// as they were, and the oracle genesis model must export what the chain exported
+		{
+			pre := c.oracleAbs(users)
+			if e, p := c.Restart(6 * time.Second); e != "" || p != nil {
+				out.Emit(map[string]interface{}{"mod": "panic", "where": "restart", "hist": hi, "i": steps, "h": c.H, "panic": fmt.Sprint(e, p)})
+			} else {
+				post := c.oracleAbs(users)
+				var gj interface{}
+				var app map[string]json.RawMessage
+				if json.Unmarshal(c.LastExport, &app) == nil {
+					var gs oracletypes.GenesisState
+					if err := c.A.AppCodec().UnmarshalJSON(app[oracletypes.ModuleName], &gs); err == nil {
+						feeds := []interface{}{}
+						for _, f := range gs.FeedList {
+							feeds = append(feeds, map[string]interface{}{"owner": f.Owner, "data": f.Data, "lastUpdate": f.LastUpdate.UnixNano(), "name": f.Name})
+						}
+						var dep interface{}
+						if _, err := sdk.AccAddressFromBech32(gs.Params.Deposit); err == nil {
+							dep = gs.Params.Deposit
+						}
+						gj = map[string]interface{}{"params": map[string]interface{}{"deposit": dep}, "feedList": feeds, "validateOk": gs.Validate() == nil}
+					}
+				}
+				out.Emit(map[string]interface{}{"mod": "oracle", "hist": hi, "i": steps, "h": c.H, "now": c.T.UnixNano(), "pre": pre, "op": "restart", "ok": true, "post": post, "genesis": gj})
+				out.Count("oracle.restart", true)
+			}
+		}
 		// (c) the wasm route into the storage message server: a contract may post storage files only in its own
 		// name, and what it posts is handled exactly like the same MsgPostFile delivered directly (paid once when
 		// Expires > 0, against the contract's plan otherwise).  Two of the four callers hold a plan, so that both
